@@ -42,6 +42,7 @@ P07 ==
     /\ (Ev.path \in {"fuzzy", "cached-fuzzy"}) =>
           /\ \A i \in 1..Len(Ev.attr) : Ev.attr[i][3] = 1 /\ (Ev.sc.thr # 0 => Ev.attr[i][4] >= Ev.sc.thr)
           /\ \A i \in 1..(Len(Ev.attr) - 1) : Ev.attr[i][4] >= Ev.attr[i + 1][4]
+          /\ \A i \in 1..Len(Ev.cmp) : Ev.cmp[i] >= 0                       \* ... and by the scores it reports
     /\ (Ev.sc.fuzzy /\ Ev.sc.thr = 0 /\ Ev.elgsub /\ Ev.sc.entry # "pipeline" /\ ~Ev.panic) => Len(Ev.main) > 0
 
 \* C02: every repetition (same process, re-loaded copy, other process) gives the identical answer
